@@ -152,8 +152,8 @@ func selftestFor(prop, tier string, seed int) (map[string]interface{}, []string)
 		}
 		r.Shuffle(len(fail), func(i, j int) { fail[i], fail[j] = fail[j], fail[i] })
 		r.Shuffle(len(pass), func(i, j int) { pass[i], pass[j] = pass[j], pass[i] })
-		if len(fail) > 3 {
-			fail = fail[:3]
+		if len(fail) > 2 {
+			fail = fail[:2]
 		}
 		if len(pass) > 1 {
 			pass = pass[:1]
